@@ -427,9 +427,18 @@ def r15_4(run):
 CONVERSIONS = {"item", "tolist", "float", "int", "str", "bool", "list"}
 
 
+def _leaves(t):
+    if isinstance(t, tuple) and t and t[0] == "ite" and len(t) == 4:
+        return _leaves(t[2]) + _leaves(t[3])
+    return [((), t)]
+
+
 def r15_5(run):
     """state that a to_dict copies out of a foreign (library) object's private attributes has no type contract: it is
-    JSON-encodable only if the method normalises it explicitly (.item() / .tolist() / float() ...) before returning"""
+    JSON-encodable only if the method normalises it explicitly (.item() / .tolist() / float() ...) before returning.
+    Decided on the terms of the method: a read `<obj>.__dict__["_name"]` / `vars(<obj>)["_name"]` of an object other than self
+    (also through a key table, whose comprehension arrives expanded), and a store of a conversion call under the same key"""
+    from ..arrnf import ANF, C, walk, key as tkey
     ix = run.index
     n = 0
     for ci in _serialisable_classes(ix):
@@ -437,39 +446,30 @@ def r15_5(run):
         if td is None:
             continue
         run.analysed(td)
-        private = []
-        for x in ast.walk(td.node):
-            # {k: <obj>.__dict__[k] for k in <table>.keys()}
-            if isinstance(x, ast.DictComp) and isinstance(x.value, ast.Subscript) and isinstance(x.value.value, ast.Attribute) \
-                    and x.value.value.attr == "__dict__" and U(x.value.value.value) not in ("self",):
-                it = x.generators[0].iter
-                tbl = it.func.value if isinstance(it, ast.Call) and isinstance(it.func, ast.Attribute) and it.func.attr == "keys" else it
-                if isinstance(tbl, ast.Dict):          # the class-level table, substituted at its use (flatten.const_substituted)
-                    private += [(const_str(kk), x) for kk in tbl.keys if const_str(kk) and const_str(kk).startswith("_")]
+        r = ANF(ix, td, strip=False).run()
+        private = {}
+        for e in r.events:
+            for t in ([e.term] if e.kind == "call" else [getattr(e, "value", None)]):
+                if t is None:
                     continue
-                if isinstance(tbl, ast.Attribute) and U(tbl.value) in ("self", "cls"):
-                    v = None
-                    for k in ix.mro(ci):
-                        if tbl.attr in k.attrs:
-                            v = k.attrs[tbl.attr]
-                            break
-                    if isinstance(v, ast.Dict):
-                        private += [(const_str(kk), x) for kk in v.keys if const_str(kk) and const_str(kk).startswith("_")]
-                        continue
-                raise AnalysisError("%s.to_dict copies foreign __dict__ entries over a key table that is not a class-level dict" % ci.name)
-            if isinstance(x, ast.Subscript) and isinstance(x.value, ast.Attribute) and x.value.attr == "__dict__" \
-                    and U(x.value.value) != "self" and const_str(x.slice) and const_str(x.slice).startswith("_"):
-                private.append((const_str(x.slice), x))
-        for key_, node in private:
+                for x in walk(t):
+                    if x[0] == "idx" and len(x[2]) == 1 and x[2][0][0] == "c" and isinstance(x[2][0][1], str) and x[2][0][1].startswith("_") \
+                            and x[1][0] == "attr" and x[1][2] == "__dict__" and x[1][1] != ("n", "self"):
+                        private.setdefault(x[2][0][1], e)
+                    if x[0] == "comp" and any(y[0] == "attr" and y[2] == "__dict__" and y[1] != ("n", "self") for y in walk(x[2])):
+                        raise AnalysisError("%s.to_dict copies foreign __dict__ entries over a key table that is not known at analysis time" % ci.name)
+        for key_, ev in sorted(private.items()):
             n += 1
             conv = False
-            for st in ast.walk(td.node):
-                if isinstance(st, ast.Assign) and isinstance(st.targets[0], ast.Subscript) and const_str(st.targets[0].slice) == key_ \
-                        and isinstance(st.value, ast.Call) and callee_name(st.value) in CONVERSIONS:
-                    conv = True
+            for s_ in r.stores():
+                if s_.index == (C(key_),):
+                    for _c, leaf in _leaves(s_.value):
+                        if leaf[0] == "call" and ((leaf[1][0] == "attr" and leaf[1][2] in CONVERSIONS)
+                                                  or (leaf[1][0] == "x" and leaf[1][1].rsplit(".", 1)[-1] in CONVERSIONS)):
+                            conv = True
             run.ob("%s|to_dict|private-foreign-state-normalised|%s" % (ci.name, key_), conv,
                    "%s.to_dict exports the private attribute %s of a library object; it is converted to a JSON-native value "
-                   "before it is returned" % (ci.name, key_), run.where(td, node))
+                   "before it is returned" % (ci.name, key_), run.where(td, ev.node))
     run.ob("foreign-private-exports-found", n >= 1, "to_dict methods exporting private library state: %d" % n, "src/pandapipes")
     run.floor(2)
 
